@@ -12,7 +12,7 @@ THEOREMS = ['MindsVerif.Props.C01.' + n for n in (
     'C01_partial_expr_sqlite', 'C01_partial_expr_mysql', 'C01_partial_expr_mindsdb',
     'C01_regress_parameter', 'C01_regress_variable', 'C01_partial_compose', 'C01_partial_select_expr',
     'C01_partial_select_expr_sqlite', 'C01_partial_select_expr_mysql', 'C01_partial_select_expr_mindsdb',
-    'C01_partial_tokens', 'C01_partial_tokens_compose')]
+    'C01_partial_tokens', 'C01_partial_tokens_compose', 'C01_partial_literal_sequence')]
 ASSUME = [
     'C01_full is proved per layer only: L2 expressions (operator-precedence machine, tied to the LALR tables by C03.phi3b) and '
     'L3 SELECT skeleton / set-operation chains (hand model Model/SelectSkel.lean of the clause rules, ensure_select_keyword_order and '
@@ -422,6 +422,167 @@ def parts_stream(chk, cl, dist, quick):
                     e = w % x
                     run_case(chk, cl, d, pos % ((e,) * pos.count('%s')), 'parts:paren', dist, 'parts/%s/paren' % d)
 
+
+# ------------------------------------------------------------------------------------------ atoms in sequence
+# Where a quoted token ends can depend on what FOLLOWS it (a printed literal ending in an odd run of backslashes
+# swallows its closing quote and runs on to the next quote of the statement; likewise back-quoted names).  So every
+# edge value is tried followed by every other edge value, in every statement position that holds two or more atoms.
+EDGE_CHARS = ['\\', "'", '"', '`', '%', ' ', '\n', 'é', '_']
+
+
+def edge_values():
+    out = []
+    for c in EDGE_CHARS:
+        out += [c, c + c, 'a' + c, c + 'a', 'a' + c + 'b', 'a' + c + c, c + c + c]
+    out += ["\\'", "'\\", '\\"', '"\\', "a\\'", "a'\\", 'C:\\d\\', 'x\\\\', "it's", 'a\\%', '50\\%', '\\d+', '', 'a']
+    seen, res = set(), []
+    for v in out:
+        if v not in seen:
+            seen.add(v)
+            res.append(v)
+    return res
+
+
+PAIR_VALUES = ['a', '', 'a\\', '\\', '\\\\', 'a\\\\', "a'", "'", "''", "'a", "a\\'", "a'\\", 'a"', '"', 'a\\"', 'a`', 'a\n', 'a%', 'C:\\d\\', ' ']
+
+
+def src_literal(v, style):
+    """source text of a string literal denoting v, written WITHOUT the library's printer:
+    style 0: '..' with '' for a quote, 1: '..' with \' for a quote, 2: ".." (\" for a double quote)"""
+    if style == 2:
+        return '"' + v.replace('\\', '\\\\').replace('"', '\\"') + '"'
+    return "'" + v.replace('\\', '\\\\').replace("'", "''" if style == 0 else "\\'") + "'"
+
+
+SEQ_CONTEXTS = ['SELECT %s, %s', 'SELECT * FROM t WHERE a = %s AND b = %s', 'INSERT INTO t (a, b) VALUES (%s, %s)',
+                'SELECT * FROM t WHERE a IN (%s, %s)', 'SELECT f(%s, %s)', 'UPDATE t SET a = %s, b = %s', 'SELECT %s AS x, %s AS y FROM t',
+                'SELECT * FROM t WHERE a LIKE %s OR b = %s', 'SELECT CASE WHEN a = %s THEN %s END', 'SELECT * FROM t WHERE a = %s ORDER BY %s',
+                'DELETE FROM t WHERE a = %s AND b <> %s', 'SELECT %s UNION SELECT %s']
+SEQ_CONTEXTS_MINDSDB = ['SELECT a FROM t USING x = %s, y = %s', 'CREATE DATABASE d PARAMETERS {"k": %s, "l": %s}', 'SHOW TABLES LIKE %s WHERE a = %s',
+                        "CREATE DATABASE d WITH ENGINE = %s, PARAMETERS = {\"k\": %s}", 'CREATE AGENT ag USING model = %s, prompt = %s',
+                        'SELECT INTERVAL %s, %s', 'CREATE MODEL m PREDICT p USING a = %s, b = %s', "CREATE JOB j (select %s) START %s",
+                        'UPDATE SKILL sk SET a = %s, b = %s', 'EVALUATE m FROM (select 1) USING a = %s, b = %s']
+NAME_VALUES = ['a', 'a`', '`a', 'a`b', '`', '``', 'a b', 'a.b', "a'b", 'a"b', 'a\\', 'select', '1a', 'é']
+NAME_CONTEXTS = ['SELECT %s, %s FROM t', 'SELECT %s.%s FROM t', 'SELECT a AS %s, b AS %s FROM t', 'SELECT * FROM %s AS %s', 'SELECT * FROM %s JOIN %s',
+                 'INSERT INTO %s (%s) VALUES (1)', 'SELECT * FROM t WHERE %s = %s', 'UPDATE %s SET %s = 1', 'SELECT %s FROM t ORDER BY %s']
+
+
+def src_name(v):
+    return '`' + v.replace('`', '``') + '`'
+
+
+def sequence_stream(chk, cl, dist, quick):
+    """edge atoms followed by edge atoms: oracle in every two-atom position + correspondence of the literal sequence
+    model (Driver/LitSeq: printSeq / readSeq) with Constant.to_string and the real lexers"""
+    vals = edge_values()
+    rng = common.rng_for('C01-fixed-seq', 'lits')
+    for d in DIALECTS:
+        ctxs = SEQ_CONTEXTS + (SEQ_CONTEXTS_MINDSDB if d == 'mindsdb' else [])
+        # (a) every edge value alone and before / after a plain literal, all three source spellings
+        for v in vals:
+            for st in (0, 1, 2):
+                for c in ('SELECT %s', 'SELECT %s, %s', 'SELECT * FROM t WHERE a = %s AND b = %s'):
+                    args = [src_literal(v, st)] + ["'z'"] * (c.count('%s') - 1)
+                    run_case(chk, cl, d, c % tuple(args), 'seq:lit', dist, 'seq/%s/single' % d)
+                    if c.count('%s') == 2:
+                        run_case(chk, cl, d, c % ("'z'", src_literal(v, st)), 'seq:lit', dist, 'seq/%s/single' % d)
+        # (b) every ordered pair of the pair values in every two-literal position
+        k = 0
+        for x in PAIR_VALUES:
+            for y in PAIR_VALUES:
+                k += 1
+                for ci, c in enumerate(ctxs):
+                    if quick and (ci + k) % 3 and ci >= 4:
+                        continue        # quick: the first four positions always, the others for every third pair
+                    text = c % (src_literal(x, k % 2), src_literal(y, (k // 2) % 3 if d != 'sqlite' else 0))
+                    run_case(chk, cl, d, text, 'seq:pair', dist, 'seq/%s/pair' % d)
+        # (c) triples
+        for _ in range(150 if quick else 3000):
+            xs = [rng.choice(vals) for _ in range(3)]
+            text = rng.choice(['SELECT %s, %s, %s', 'SELECT * FROM t WHERE a IN (%s, %s, %s)', 'INSERT INTO t VALUES (%s, %s), (%s, 1)'])
+            run_case(chk, cl, d, text % tuple(src_literal(x, rng.randrange(2)) for x in xs), 'seq:triple', dist, 'seq/%s/triple' % d)
+        # (d) quoted names in sequence
+        k = 0
+        for x in NAME_VALUES:
+            for y in NAME_VALUES:
+                k += 1
+                for ci, c in enumerate(NAME_CONTEXTS):
+                    if quick and (ci + k) % 3:
+                        continue
+                    run_case(chk, cl, d, c % (src_name(x), src_name(y)), 'seq:name', dist, 'seq/%s/name' % d)
+    # (e) correspondence: model of the printed literal sequence vs the real printer and the real lexers
+    from tools.harness.lexh import enc, dec, dec_list
+    seps = [', ', ' AND b = ', ') OR (', ' || ', '\n', ' ']
+    items = []
+    for x in PAIR_VALUES:
+        for y in PAIR_VALUES:
+            items.append([(x, seps[len(items) % len(seps)]), (y, '')])
+    for _ in range(300 if quick else 5000):
+        n = rng.randint(1, 4)
+        items.append([(rng.choice(vals), rng.choice(seps) if i < n - 1 else rng.choice(['', ')', ' FROM t'])) for i in range(n)])
+    lines = [' '.join('%s %s' % (enc(v), enc(sp)) for v, sp in it) for it in items]
+    try:
+        outs = common.lean_run('LitSeq', lines)
+    except Exception as e:
+        chk.oblige('corr:literal-sequence', 'correspondence', False, 'driver failed: %s' % e)
+        return
+    from mindsdb_sql.parser.ast import Constant
+    try:
+        from mindsdb_sql.parser.utils import unescape_string
+    except ImportError:
+        unescape_string = None
+    diverged, first, n = 0, None, 0
+    for it, o in zip(items, outs):
+        m_printed, _, m_vals = o.partition(' | ')
+        m_printed = dec(m_printed)
+        m_vals = None if m_vals.strip() == 'none' else dec_list(m_vals.strip())
+        real_printed = ''.join(Constant(v).to_string() + sp for v, sp in it)
+        n += 1
+        if real_printed != m_printed:
+            diverged += 1
+            first = first or dict(values=[v for v, _ in it], model_printed=m_printed, impl_printed=real_printed)
+            continue
+        if unescape_string is None:
+            continue
+        for d in DIALECTS:
+            try:
+                toks = list(rt.lexer_cls(d)().tokenize(real_printed))
+                real_vals = [unescape_string(t.value[1:-1], "'") for t in toks if t.type == 'QUOTE_STRING']
+            except Exception:
+                real_vals = None
+            if real_vals != m_vals:
+                diverged += 1
+                first = first or dict(dialect=d, text=real_printed, model_values=m_vals, impl_values=real_vals)
+                break
+    chk.corr_result('literal-sequence', n, diverged, first)
+
+
+# ------------------------------------------------------------------------------------------ embedded raw text
+# Statements that keep a query as raw text (views, native queries, model sources, jobs, triggers) rebuild that text
+# from the token positions; printing must be stable under every layout of the embedded text: blank lines, indentation
+# after a newline, tabs, trailing blanks, tokens that span lines.
+RAW_CONTAINERS = ['CREATE VIEW v AS (%s)', 'CREATE VIEW v FROM i AS (%s)', 'SELECT * FROM i (%s) AS n', 'SELECT * FROM i (%s)',
+                  'CREATE MODEL m FROM i (%s) PREDICT p', 'RETRAIN m FROM i (%s)', 'FINETUNE m FROM i (%s)', 'CREATE JOB j (%s)',
+                  'CREATE TRIGGER tr ON db.t (%s)', 'EVALUATE m FROM (%s)', 'CREATE ANOMALY DETECTION MODEL m FROM i (%s)']
+RAW_SEPS = [' ', '\n', '\n\n', '\n   ', '\n\n  ', '   ', '\t', '\n\t', ' \n', '\n\n\n ']
+RAW_PIECES = [['select a', 'from t', 'where x = 1'], ['select a,', 'b', "from t where s = 'm\nn'"], ['select `a\nb`', 'from t', 'limit 1']]
+
+
+def rawtext_stream(chk, cl, dist, quick):
+    import itertools
+    d = 'mindsdb'
+    k = 0
+    for pieces in RAW_PIECES:
+        for seps in itertools.product(RAW_SEPS, repeat=len(pieces) - 1):
+            inner = pieces[0] + ''.join(sp + pc for sp, pc in zip(seps, pieces[1:]))
+            for lead, trail in (('', ''), (' ', ' '), ('\n', '\n'), ('\n  ', ' \n ')):
+                k += 1
+                conts = RAW_CONTAINERS if not quick else [RAW_CONTAINERS[k % len(RAW_CONTAINERS)], RAW_CONTAINERS[(k * 7 + 3) % len(RAW_CONTAINERS)]]
+                for c in conts:
+                    run_case(chk, cl, d, c % (lead + inner + trail), 'rawtext', dist, 'rawtext/%s' % d)
+            # the same statement with the layout applied outside the embedded text as well
+            run_case(chk, cl, d, ('CREATE VIEW v%sAS%s(%s)' % (seps[0], seps[-1], inner)), 'rawtext', dist, 'rawtext/%s' % d)
+
 # ------------------------------------------------------------------------------------------ SELECT skeleton
 def pay_sql(n, role):
     if role == 'from':
@@ -617,10 +778,8 @@ def skeleton_stream(chk, cl, dist, quick):
         if impl == 'syntax':
             # LALR glue (G1) outside the skeleton: tolerated only for non-canonical clause orders
             syn += 1
-            # known hole in (G1), mysql only (mindsdb repaired in 8fa9192 / 7ca02af): OFFSET is an `id` alternative, so
-            # `<target|table> OFFSET n` reads OFFSET as an alias (known finding KF-C01-10)
-            alias_hole = d == 'mysql' and any(c[0] == 'X' and (i2 == 0 or cs[i2 - 1][0] == 'F') for i2, c in enumerate(cs))
-            if canonical and o.startswith('ok') and not alias_hole:
+            # (the OFFSET-as-alias hole of (G1) is closed in all dialects since 439b325: no tolerance left)
+            if canonical and o.startswith('ok'):
                 diverged += 1
                 first = first or dict(dialect=d, text=text, model=o, impl='syntax error on a canonical clause order')
             continue
@@ -690,6 +849,8 @@ def run(chk):
     expr_stream(chk, cl, dist, quick)
     atom_stream(chk, cl, dist, quick)
     parts_stream(chk, cl, dist, quick)
+    sequence_stream(chk, cl, dist, quick)
+    rawtext_stream(chk, cl, dist, quick)
     skeleton_stream(chk, cl, dist, quick)
     # known findings still reproduce?
     for k in chk.kf:
